@@ -236,9 +236,10 @@ class QuicSession:
             logging.warning(f"Could not decrypt Quic Packet: {quic_packet.dcid}")
 
     def packet_isserver(self, packet, dcid):
-        if dcid in self.server_cids:
+        # a zero-length connection ID says nothing about the direction: both endpoints may use one
+        if len(dcid) > 0 and dcid in self.server_cids:
             return False
-        elif dcid in self.client_cids:
+        elif len(dcid) > 0 and dcid in self.client_cids:
             return True
         elif packet.ip_src == self.client_ip and packet.sport == self.client_port:
             return False
